@@ -28,6 +28,7 @@ type snapshot struct {
 	found   []bool
 	prices  []int
 	nearest int
+	nearDist uint32
 	nearIds map[uuid.UUID]int
 }
 
@@ -48,11 +49,14 @@ func observe(s *Shard, ids []uuid.UUID) snapshot {
 	vassert("observe-vector-search-ok", err == nil)
 	sn.nearest = len(res)
 	sn.nearIds = resultIds(res)
+	if len(res) > 0 && res[0].Distance != nil {
+		sn.nearDist = math.Float32bits(*res[0].Distance) // the vector the answer was computed from
+	}
 	return sn
 }
 
 func sameSnapshot(a, b snapshot, ids []uuid.UUID) bool {
-	if a.count != b.count || a.nearest != b.nearest || len(a.found) != len(b.found) {
+	if a.count != b.count || a.nearest != b.nearest || a.nearDist != b.nearDist || len(a.found) != len(b.found) {
 		return false
 	}
 	for i := range a.found {
